@@ -17,6 +17,12 @@
 #include <etl/cmath.hpp>
 #include <etl/cstring.hpp>
 #include <etl/numeric.hpp>
+#include <etl/algorithm.hpp>
+#include <etl/charconv.hpp>
+#include <etl/chrono.hpp>
+#include <etl/string.hpp>
+#include <etl/string_view.hpp>
+#include <etl/vector.hpp>
 
 #include <bit>
 #include <cctype>
@@ -25,6 +31,11 @@
 #include <cstring>
 #include <string>
 #include <type_traits>
+#include <algorithm>
+#include <charconv>
+#include <chrono>
+#include <string_view>
+#include <vector>
 
 #include "proto.hpp"
 
@@ -86,6 +97,7 @@ C13_F1(signbit, etl::signbit)
 C13_F1(isnan, etl::isnan)
 C13_F1(isinf, etl::isinf)
 C13_F1(isfinite, etl::isfinite)
+C13_F1(sqrt, etl::sqrt)
 #undef C13_F1
 constexpr auto ev_copysign_f32(u32 x, u32 y) -> u64 { return E(etl::copysign(F(x), F(y))); }
 constexpr auto ev_copysign_f64(u64 x, u64 y) -> u64 { return E(etl::copysign(D(x), D(y))); }
@@ -93,6 +105,103 @@ constexpr auto ev_fma_f32(u32 x, u32 y, u32 z) -> u64 { return E(etl::fma(F(x), 
 constexpr auto ev_fma_f64(u64 x, u64 y, u64 z) -> u64 { return E(etl::fma(D(x), D(y), D(z))); }
 constexpr auto ev_bit_cast_f32(u32 x) -> u64 { return E(etl::bit_cast<u32>(etl::bit_cast<float>(x))); }
 constexpr auto ev_bit_cast_f64(u64 x) -> u64 { return E(etl::bit_cast<u64>(etl::bit_cast<double>(x))); }
+
+// ---------------------------------------------------------------- cmath: the other spellings and overloads (review C13, T1..T3)
+// (b) the `f`-suffixed spellings on binary32 patterns
+#define C13_FF(NAME) constexpr auto ev_##NAME##_f32(u32 x) -> u64 { return E(etl::NAME(F(x))); }
+C13_FF(floorf)
+C13_FF(ceilf)
+C13_FF(truncf)
+C13_FF(roundf)
+C13_FF(rintf)
+C13_FF(lrintf)
+C13_FF(llrintf)
+#undef C13_FF
+constexpr auto ev_copysignf_f32(u32 x, u32 y) -> u64 { return E(etl::copysignf(F(x), F(y))); }
+
+// (a) long double (x87 extended: 64 significant bits).  The argument is the binary64 value D(x) with `d` further units
+// in the 11 low bits of the 64-bit significand (1 unit = 2^-11 ulp of the binade of D(x)), added to the magnitude;
+// `d` counts only when D(x) is a normal number with exponent field in [64, 2045] (every step exact, the sum stays inside
+// the binade and inside the range of double), `n` negates the result of that (a negative NaN is `-(long double)NaN`).
+constexpr auto LD(u64 x, u32 d, u32 n = 0) -> long double
+{
+    long double a = D(x);
+    u64 const ef  = (x >> 52) & 0x7ffu;
+    if (d != 0 and ef >= 64 and ef <= 2045) {
+        long double const u = D((ef - 63) << 52); // 2^-11 ulp
+        a                   = (x >> 63) != 0 ? a - static_cast<long double>(d) * u : a + static_cast<long double>(d) * u;
+    }
+    return n != 0 ? -a : a;
+}
+// A long double result r in two exact parts: p = 0: hi = r rounded to double (to nearest even); p = 1: r - hi (at most
+// 11 significant bits: exact, and exactly a double).  NaN: (NaN with the sign of r, 0); hi infinite: (hi, 0).
+constexpr auto PART(long double r, u32 p) -> u64
+{
+    if (r != r) {
+        return p == 0 ? (__builtin_signbit(r) ? 0xfff8000000000000ull : 0x7ff8000000000000ull) : 0;
+    }
+    auto const hi = static_cast<double>(r);
+    if (p == 0) return E(hi);
+    if (hi == __builtin_inf() or hi == -__builtin_inf()) return 0;
+    return E(static_cast<double>(r - static_cast<long double>(hi)));
+}
+#define C13_LD(OP, CALL) constexpr auto ev_##OP##_ld(u64 x, u32 d, u32 p) -> u64 { return PART(CALL(LD(x, d)), p); }
+C13_LD(floorl, etl::floorl)
+C13_LD(ceill, etl::ceill)
+C13_LD(truncl, etl::truncl)
+C13_LD(roundl, etl::roundl)
+C13_LD(rintl, etl::rintl)
+C13_LD(floor, etl::floor)
+C13_LD(ceil, etl::ceil)
+C13_LD(trunc, etl::trunc)
+C13_LD(round, etl::round)
+C13_LD(rint, etl::rint)
+#undef C13_LD
+#define C13_LDI(OP, CALL) constexpr auto ev_##OP##_ld(u64 x, u32 d) -> u64 { return E(CALL(LD(x, d))); }
+C13_LDI(lrintl, etl::lrintl)
+C13_LDI(llrintl, etl::llrintl)
+C13_LDI(lrint, etl::lrint)
+C13_LDI(llrint, etl::llrint)
+#undef C13_LDI
+#define C13_LDB(OP, CALL) constexpr auto ev_##OP##_ld(u64 x, u32 d, u32 n) -> u64 { return E(CALL(LD(x, d, n))); }
+C13_LDB(signbit, etl::signbit)
+C13_LDB(isnan, etl::isnan)
+C13_LDB(isinf, etl::isinf)
+C13_LDB(isfinite, etl::isfinite)
+C13_LDB(signbit_fb, etl::detail::signbit_fallback<long double>)   // the `sizeof(T) not in {4, 8}` branch, never reached through etl::signbit
+C13_LDB(signbit_fb_negnan, etl::detail::signbit_fallback<long double>) // the same function; this table holds the negative NaNs only
+#undef C13_LDB
+// copysign: both arguments are binary64 values; `n` bit 0 negates the first, bit 1 the second, after the conversion
+constexpr auto ev_copysign_ld(u64 x, u64 y, u32 n) -> u64 { return PART(etl::copysign(LD(x, 0, n & 1u), LD(y, 0, (n >> 1) & 1u)), 0); }
+constexpr auto ev_copysignl_ld(u64 x, u64 y, u32 n) -> u64 { return PART(etl::copysignl(LD(x, 0, n & 1u), LD(y, 0, (n >> 1) & 1u)), 0); }
+
+// T2: detail::signbit_fallback for the 4- and 8-byte formats (GCC reaches __builtin_signbit instead)
+constexpr auto ev_signbit_fb_f32(u32 x) -> u64 { return E(etl::detail::signbit_fallback(F(x))); }
+constexpr auto ev_signbit_fb_f64(u64 x) -> u64 { return E(etl::detail::signbit_fallback(D(x))); }
+
+// (c) the integral overloads: `f(Int) -> double` (lrint/llrint -> long/long long, isnan/isinf -> bool)
+#define C13_INT(NAME)                                                                                                  \
+    constexpr auto ev_##NAME##_i32(i32 x) -> u64 { return E(etl::NAME(x)); }                                          \
+    constexpr auto ev_##NAME##_i64(i64 x) -> u64 { return E(etl::NAME(x)); }
+C13_INT(floor)
+C13_INT(ceil)
+C13_INT(trunc)
+C13_INT(round)
+C13_INT(rint)
+C13_INT(lrint)
+C13_INT(llrint)
+C13_INT(isnan)
+C13_INT(isinf)
+#undef C13_INT
+
+// T5: byteswap of the one-byte and of the signed types
+#define C13_BSX(S) constexpr auto ev_byteswap_##S(S x) -> u64 { return E(etl::byteswap(x)); }
+C13_BSX(u8)
+C13_BSX(i8)
+C13_BSX(i16)
+C13_BSX(i32)
+C13_BSX(i64)
+#undef C13_BSX
 
 // ---------------------------------------------------------------- bit / numeric
 #define C13_U(S)                                                                                                       \
@@ -121,6 +230,93 @@ C13_AS(u32)
 C13_AS(i64)
 C13_AS(u64)
 #undef C13_AS
+
+// ---------------------------------------------------------------- T4: one constexpr row per remaining category
+// (containers, strings, views, algorithms, integer conversion, chrono).  Single-path code: the obligation is that
+// constant evaluation succeeds and gives what run time gives.  Every script is a template over the library (tetl / std).
+struct IL { // a list argument of a constexpr row: c13::IL{n, {v0, v1, ...}}
+    int n;
+    int v[16];
+};
+template <typename Vec>
+constexpr auto vec_script(IL a, int k, int j, int v) -> u64
+{
+    Vec s{};
+    for (int i = 0; i < a.n; ++i) s.push_back(a.v[i]);
+    if (k >= 0 and static_cast<std::size_t>(k) < s.size()) s.erase(s.begin() + k);
+    if (j >= 0 and static_cast<std::size_t>(j) <= s.size() and s.size() < 8) s.insert(s.begin() + j, v);
+    long long h = 1000 * static_cast<long long>(s.size());
+    for (std::size_t i = 0; i < s.size(); ++i) h += static_cast<long long>(i + 1) * s[i];
+    return E(h);
+}
+constexpr auto ev_vec(IL a, int k, int j, int v) -> u64 { return vec_script<etl::static_vector<int, 8>>(a, k, j, v); }
+template <typename Str>
+constexpr auto str_script(IL a, IL b, int c) -> u64
+{
+    Str s{};
+    Str t{};
+    for (int i = 0; i < a.n; ++i) s.push_back(static_cast<char>(a.v[i]));
+    for (int i = 0; i < b.n; ++i) t.push_back(static_cast<char>(b.v[i]));
+    s.append(t);
+    auto const f = s.find(static_cast<char>(c));
+    return E(static_cast<u64>(f == Str::npos ? 99 : f) + 100 * static_cast<u64>(s.size()));
+}
+constexpr auto ev_istr(IL a, IL b, int c) -> u64 { return str_script<etl::inplace_string<16>>(a, b, c); }
+template <typename SV>
+constexpr auto sv_script(IL a, int c, int i, int n) -> u64
+{
+    char buf[16]{};
+    for (int q = 0; q < a.n; ++q) buf[q] = static_cast<char>(a.v[q]);
+    SV const sv(buf, static_cast<std::size_t>(a.n));
+    auto const sub = sv.substr(static_cast<std::size_t>(i), static_cast<std::size_t>(n)); // i <= a.n
+    auto const f   = sub.find(static_cast<char>(c));
+    return E(static_cast<u64>(f == SV::npos ? 99 : f) + 100 * static_cast<u64>(sub.size())
+             + 10000 * static_cast<u64>(sgn(sub.compare(sv)) + 1));
+}
+constexpr auto ev_sview(IL a, int c, int i, int n) -> u64 { return sv_script<etl::string_view>(a, c, i, n); }
+constexpr auto ev_sortlb(IL a, int v) -> u64
+{
+    etl::sort(a.v, a.v + a.n);
+    auto const idx = etl::lower_bound(a.v, a.v + a.n, v) - a.v;
+    long long h    = 0;
+    for (int i = 0; i < a.n; ++i) h += static_cast<long long>(i + 1) * a.v[i];
+    return E(static_cast<long long>(idx) + 100 * h);
+}
+inline auto ref_sortlb(IL a, int v) -> u64
+{
+    std::sort(a.v, a.v + a.n);
+    auto const idx = std::lower_bound(a.v, a.v + a.n, v) - a.v;
+    long long h    = 0;
+    for (int i = 0; i < a.n; ++i) h += static_cast<long long>(i + 1) * a.v[i];
+    return E(static_cast<long long>(idx) + 100 * h);
+}
+#define C13_CONV(FN, NS, QUAL)                                                                                         \
+    QUAL auto FN(i32 x, int b) -> u64                                                                                  \
+    {                                                                                                                  \
+        char buf[40]{};                                                                                                \
+        auto const r = NS::to_chars(buf, buf + 40, x, b);                                                              \
+        u64 h        = 0;                                                                                              \
+        for (char const* p = buf; p != r.ptr; ++p) h = h * 131 + static_cast<unsigned char>(*p);                       \
+        i32 back      = 0;                                                                                             \
+        auto const fr = NS::from_chars(static_cast<char const*>(buf), r.ptr, back, b);                                 \
+        h             = h * 1000003ull + static_cast<u64>(static_cast<i64>(back));                                     \
+        return h * 7 + (fr.ptr == r.ptr ? 1 : 0) + (fr.ec == decltype(fr.ec){} ? 2 : 0) + (r.ec == decltype(r.ec){} ? 0 : 4); \
+    }
+C13_CONV(ev_conv, etl, constexpr)
+C13_CONV(ref_conv, std, inline)
+#undef C13_CONV
+constexpr auto ev_ymd(i32 n) -> u64
+{
+    auto const d = etl::chrono::year_month_day{etl::chrono::sys_days{etl::chrono::days{n}}};
+    return E(static_cast<long long>(static_cast<int>(d.year())) * 10000 + static_cast<long long>(static_cast<unsigned>(d.month())) * 100
+             + static_cast<long long>(static_cast<unsigned>(d.day())));
+}
+inline auto ref_ymd(i32 n) -> u64
+{
+    auto const d = std::chrono::year_month_day{std::chrono::sys_days{std::chrono::days{n}}};
+    return E(static_cast<long long>(static_cast<int>(d.year())) * 10000 + static_cast<long long>(static_cast<unsigned>(d.month())) * 100
+             + static_cast<long long>(static_cast<unsigned>(d.day())));
+}
 
 // ---------------------------------------------------------------- cstring / cctype
 constexpr auto ev_strlen(char const* s) -> u64 { return E(etl::strlen(s)); }
@@ -163,7 +359,7 @@ C13_CT(toupper)
 
 namespace c13 {
 
-enum Kind { KF32, KF64, KI, KU, KP, KX32, KX64 }; // KX*: raw bit pattern (NaN payloads kept)
+enum Kind { KF32, KF64, KI, KU, KP, KX32, KX64, KS32, KS64 }; // KX*: raw bit pattern (NaN payloads kept); KS*: NaN as nan+ / nan- (sign kept, payload dropped)
 
 inline auto fmt(Kind k, u64 v) -> std::string
 {
@@ -181,6 +377,12 @@ inline auto fmt(Kind k, u64 v) -> std::string
         case KX64: std::snprintf(buf, sizeof buf, "%016llx", static_cast<unsigned long long>(v)); return buf;
         case KI: return std::to_string(static_cast<long long>(v));
         case KU: return std::to_string(static_cast<unsigned long long>(v));
+        case KS32:
+            if ((v & 0x7fffffffu) > 0x7f800000u) return (v >> 31) & 1u ? "nan-" : "nan+";
+            return fmt(KF32, v);
+        case KS64:
+            if ((v & 0x7fffffffffffffffull) > 0x7ff0000000000000ull) return (v >> 63) != 0 ? "nan-" : "nan+";
+            return fmt(KF64, v);
         case KP: return v == NULLP ? std::string("null") : std::to_string(static_cast<unsigned long long>(v));
     }
     return "?";
@@ -217,6 +419,16 @@ template <typename T>
 inline auto arg(proto::Line const& l, char const* k) -> T
 {
     return launder(static_cast<T>(static_cast<u64>(l.i(k))));
+}
+
+// a list argument at run time: every element through a volatile object
+inline auto il(proto::Line const& l, char const* k) -> IL
+{
+    IL r{};
+    auto const& v = l.list(k);
+    r.n           = launder(static_cast<int>(v.size() <= 16 ? v.size() : 16));
+    for (int i = 0; i < r.n; ++i) r.v[i] = launder(static_cast<int>(v[static_cast<std::size_t>(i)]));
+    return r;
 }
 
 struct Op {
@@ -282,10 +494,11 @@ inline Op const ops[] = {
     C13_OPF1(isnan, KU, KU, std::isnan),
     C13_OPF1(isinf, KU, KU, std::isinf),
     C13_OPF1(isfinite, KU, KU, std::isfinite),
-    Op{"copysign_f32", KF32, [](L) { return ev_copysign_f32(arg<u32>(l, "x"), arg<u32>(l, "y")); },
+    C13_OPF1(sqrt, KF32, KF64, std::sqrt),
+    Op{"copysign_f32", KS32, [](L) { return ev_copysign_f32(arg<u32>(l, "x"), arg<u32>(l, "y")); },
        [](L) { return E(std::copysign(launder(F(arg<u32>(l, "x"))), launder(F(arg<u32>(l, "y"))))); }, tbl_copysign_f32,
        n_copysign_f32},
-    Op{"copysign_f64", KF64, [](L) { return ev_copysign_f64(arg<u64>(l, "x"), arg<u64>(l, "y")); },
+    Op{"copysign_f64", KS64, [](L) { return ev_copysign_f64(arg<u64>(l, "x"), arg<u64>(l, "y")); },
        [](L) { return E(std::copysign(launder(D(arg<u64>(l, "x"))), launder(D(arg<u64>(l, "y"))))); }, tbl_copysign_f64,
        n_copysign_f64},
     Op{"fma_f32", KF32, [](L) { return ev_fma_f32(arg<u32>(l, "x"), arg<u32>(l, "y"), arg<u32>(l, "z")); },
@@ -344,6 +557,102 @@ inline Op const ops[] = {
     C13_OPCT(isxdigit),
     C13_OPCT(tolower),
     C13_OPCT(toupper),
+    // ---- the other spellings and overloads (T1..T3, T5)
+#define C13_OPFF(NAME, KIND, STD)                                                                                      \
+    Op{#NAME "_f32", KIND, [](L) { return ev_##NAME##_f32(arg<u32>(l, "x")); },                                        \
+       [](L) { return E(STD(launder(F(arg<u32>(l, "x"))))); }, tbl_##NAME##_f32, n_##NAME##_f32}
+    C13_OPFF(floorf, KF32, ::floorf),
+    C13_OPFF(ceilf, KF32, ::ceilf),
+    C13_OPFF(truncf, KF32, ::truncf),
+    C13_OPFF(roundf, KF32, ::roundf),
+    C13_OPFF(rintf, KF32, ::rintf),
+    C13_OPFF(lrintf, KI, ::lrintf),
+    C13_OPFF(llrintf, KI, ::llrintf),
+    Op{"copysignf_f32", KS32, [](L) { return ev_copysignf_f32(arg<u32>(l, "x"), arg<u32>(l, "y")); },
+       [](L) { return E(::copysignf(launder(F(arg<u32>(l, "x"))), launder(F(arg<u32>(l, "y"))))); }, tbl_copysignf_f32,
+       n_copysignf_f32},
+#define C13_LDARG launder(LD(arg<u64>(l, "x"), arg<u32>(l, "d")))
+#define C13_OPLD(OP, STD)                                                                                              \
+    Op{#OP "_ld", KF64, [](L) { return ev_##OP##_ld(arg<u64>(l, "x"), arg<u32>(l, "d"), arg<u32>(l, "p")); },          \
+       [](L) { return PART(STD(C13_LDARG), arg<u32>(l, "p")); }, tbl_##OP##_ld, n_##OP##_ld}
+    C13_OPLD(floorl, ::floorl),
+    C13_OPLD(ceill, ::ceill),
+    C13_OPLD(truncl, ::truncl),
+    C13_OPLD(roundl, ::roundl),
+    C13_OPLD(rintl, ::rintl),
+    C13_OPLD(floor, std::floor),
+    C13_OPLD(ceil, std::ceil),
+    C13_OPLD(trunc, std::trunc),
+    C13_OPLD(round, std::round),
+    C13_OPLD(rint, std::rint),
+#define C13_OPLDI(OP, STD)                                                                                             \
+    Op{#OP "_ld", KI, [](L) { return ev_##OP##_ld(arg<u64>(l, "x"), arg<u32>(l, "d")); },                              \
+       [](L) { return E(STD(C13_LDARG)); }, tbl_##OP##_ld, n_##OP##_ld}
+    C13_OPLDI(lrintl, ::lrintl),
+    C13_OPLDI(llrintl, ::llrintl),
+    C13_OPLDI(lrint, std::lrint),
+    C13_OPLDI(llrint, std::llrint),
+#define C13_OPLDB(OP, STD)                                                                                             \
+    Op{#OP "_ld", KU, [](L) { return ev_##OP##_ld(arg<u64>(l, "x"), arg<u32>(l, "d"), arg<u32>(l, "n")); },            \
+       [](L) { return E(STD(launder(LD(arg<u64>(l, "x"), arg<u32>(l, "d"), arg<u32>(l, "n"))))); }, tbl_##OP##_ld,     \
+       n_##OP##_ld}
+    C13_OPLDB(signbit, std::signbit),
+    C13_OPLDB(isnan, std::isnan),
+    C13_OPLDB(isinf, std::isinf),
+    C13_OPLDB(isfinite, std::isfinite),
+    C13_OPLDB(signbit_fb, std::signbit),
+    C13_OPLDB(signbit_fb_negnan, std::signbit),
+#define C13_OPCSL(OP, STD)                                                                                             \
+    Op{#OP "_ld", KS64, [](L) { return ev_##OP##_ld(arg<u64>(l, "x"), arg<u64>(l, "y"), arg<u32>(l, "n")); },          \
+       [](L) {                                                                                                         \
+           auto const n = arg<u32>(l, "n");                                                                            \
+           return PART(STD(launder(LD(arg<u64>(l, "x"), 0, n & 1u)), launder(LD(arg<u64>(l, "y"), 0, (n >> 1) & 1u))), 0); \
+       },                                                                                                              \
+       tbl_##OP##_ld, n_##OP##_ld}
+    C13_OPCSL(copysign, std::copysign),
+    C13_OPCSL(copysignl, ::copysignl),
+    Op{"signbit_fb_f32", KU, [](L) { return ev_signbit_fb_f32(arg<u32>(l, "x")); },
+       [](L) { return E(std::signbit(launder(F(arg<u32>(l, "x"))))); }, tbl_signbit_fb_f32, n_signbit_fb_f32},
+    Op{"signbit_fb_f64", KU, [](L) { return ev_signbit_fb_f64(arg<u64>(l, "x")); },
+       [](L) { return E(std::signbit(launder(D(arg<u64>(l, "x"))))); }, tbl_signbit_fb_f64, n_signbit_fb_f64},
+#define C13_OPINT(NAME, KIND, STD)                                                                                     \
+    Op{#NAME "_i32", KIND, [](L) { return ev_##NAME##_i32(arg<i32>(l, "x")); },                                        \
+       [](L) { return E(STD(arg<i32>(l, "x"))); }, tbl_##NAME##_i32, n_##NAME##_i32},                                  \
+        Op{#NAME "_i64", KIND, [](L) { return ev_##NAME##_i64(arg<i64>(l, "x")); },                                    \
+           [](L) { return E(STD(arg<i64>(l, "x"))); }, tbl_##NAME##_i64, n_##NAME##_i64}
+    C13_OPINT(floor, KF64, std::floor),
+    C13_OPINT(ceil, KF64, std::ceil),
+    C13_OPINT(trunc, KF64, std::trunc),
+    C13_OPINT(round, KF64, std::round),
+    C13_OPINT(rint, KF64, std::rint),
+    C13_OPINT(lrint, KI, std::lrint),
+    C13_OPINT(llrint, KI, std::llrint),
+    C13_OPINT(isnan, KU, std::isnan),
+    C13_OPINT(isinf, KU, std::isinf),
+#define C13_OPBSX(S, KIND)                                                                                             \
+    Op{"byteswap_" #S, KIND, [](L) { return ev_byteswap_##S(arg<S>(l, "x")); },                                        \
+       [](L) {                                                                                                         \
+           using US = std::make_unsigned_t<S>;                                                                         \
+           return E(static_cast<S>(static_cast<US>(ref_bswap(static_cast<US>(arg<S>(l, "x"))))));                      \
+       },                                                                                                              \
+       tbl_byteswap_##S, n_byteswap_##S}
+    C13_OPBSX(u8, KU),
+    C13_OPBSX(i8, KI),
+    C13_OPBSX(i16, KI),
+    C13_OPBSX(i32, KI),
+    C13_OPBSX(i64, KI),
+    // ---- T4_OPS
+    Op{"vec", KI, [](L) { return ev_vec(il(l, "a"), arg<int>(l, "k"), arg<int>(l, "j"), arg<int>(l, "v")); },
+       [](L) { return vec_script<std::vector<int>>(il(l, "a"), arg<int>(l, "k"), arg<int>(l, "j"), arg<int>(l, "v")); }, tbl_vec, n_vec},
+    Op{"istr", KU, [](L) { return ev_istr(il(l, "a"), il(l, "b"), arg<int>(l, "c")); },
+       [](L) { return str_script<std::string>(il(l, "a"), il(l, "b"), arg<int>(l, "c")); }, tbl_istr, n_istr},
+    Op{"sview", KU, [](L) { return ev_sview(il(l, "a"), arg<int>(l, "c"), arg<int>(l, "i"), arg<int>(l, "n")); },
+       [](L) { return sv_script<std::string_view>(il(l, "a"), arg<int>(l, "c"), arg<int>(l, "i"), arg<int>(l, "n")); }, tbl_sview, n_sview},
+    Op{"sortlb", KI, [](L) { return ev_sortlb(il(l, "a"), arg<int>(l, "v")); },
+       [](L) { return ref_sortlb(il(l, "a"), arg<int>(l, "v")); }, tbl_sortlb, n_sortlb},
+    Op{"conv", KU, [](L) { return ev_conv(arg<i32>(l, "x"), arg<int>(l, "b")); },
+       [](L) { return ref_conv(arg<i32>(l, "x"), arg<int>(l, "b")); }, tbl_conv, n_conv},
+    Op{"ymd", KI, [](L) { return ev_ymd(arg<i32>(l, "n")); }, [](L) { return ref_ymd(arg<i32>(l, "n")); }, tbl_ymd, n_ymd},
 };
 #undef L
 
